@@ -80,7 +80,7 @@ class Node:
     '''One run of the block processor against a directory.  One live Node per process.'''
 
     def __init__(self, db_dir, world, coin, reorg_limit=5, chooser=None, flush_plan=None,
-                 max_latency=0, storage_cls=None, env_extra=None):
+                 max_latency=0, storage_cls=None, env_extra=None, real_daemon=0):
         self.db_dir = db_dir
         self.world = world
         self.coin = coin
@@ -90,7 +90,13 @@ class Node:
         self.db = DB(self.env)
         if storage_cls is not None:
             self.db.db_class = storage_cls
-        self.daemon = W.FakeDaemon(world, chooser, max_latency=max_latency)
+        if real_daemon:
+            # the repository's Daemon client (that many URLs) over an HTTP-level fake
+            from pbt.realdaemon import WorldDaemon
+            self.daemon = WorldDaemon(coin, world, n_urls=real_daemon, chooser=chooser,
+                                      max_latency=max_latency)
+        else:
+            self.daemon = W.FakeDaemon(world, chooser, max_latency=max_latency)
         self.notifications = NullNotifications()
         self.bp = BlockProcessor(self.env, self.db, self.daemon, self.notifications)
         self.flush_plan = flush_plan or {}
